@@ -9,11 +9,14 @@ EXTENDS Integers, FiniteSets, Sequences, TLC
 CONSTANTS MaxH, AVals, MaxOps
 
 Types == {"T1", "T2"}
-(* rule table: type, comparison on field a, no-loop *)
-RuleTab == [ r1 |-> [type |-> "T1", op |-> ">",  c |-> 1, noLoop |-> TRUE],
-             r2 |-> [type |-> "T1", op |-> "<=", c |-> 1, noLoop |-> TRUE],
-             r3 |-> [type |-> "T2", op |-> "==", c |-> 2, noLoop |-> TRUE],
-             r4 |-> [type |-> "T1", op |-> ">",  c |-> 0, noLoop |-> FALSE] ]
+(* rule table: type, comparison on field a, no-loop.  The field a and the thresholds are in HALVES (2 = 1, 5 = 2.5): facts *)
+(* of type T1 may hold floats, and the ordering operators compare integers and floats numerically                         *)
+RuleTab == [ r1 |-> [type |-> "T1", op |-> ">",  c |-> 2, noLoop |-> TRUE],
+             r2 |-> [type |-> "T1", op |-> "<=", c |-> 2, noLoop |-> TRUE],
+             r3 |-> [type |-> "T2", op |-> "==", c |-> 4, noLoop |-> TRUE],
+             r4 |-> [type |-> "T1", op |-> ">",  c |-> 0, noLoop |-> FALSE],
+             r5 |-> [type |-> "T1", op |-> ">=", c |-> 4, noLoop |-> TRUE],
+             r6 |-> [type |-> "T1", op |-> "<",  c |-> 6, noLoop |-> TRUE] ]
 Rules == DOMAIN RuleTab
 Cmp(op, x, c) == CASE op = ">" -> x > c [] op = "<=" -> x <= c [] op = "==" -> x = c [] op = ">=" -> x >= c [] op = "<" -> x < c
 Sat(r, f) == f.type = RuleTab[r].type /\ Cmp(RuleTab[r].op, f.a, RuleTab[r].c)
